@@ -833,3 +833,16 @@ Proof. vm_compute. reflexivity. Qed.
 Lemma params_sane :
   (0 < ParamsC12.wait_before_lock_check_ms)%Z /\ ParamsC12.stale_lock_timeout_ms = 1800000%Z.
 Proof. vm_compute. split; reflexivity. Qed.
+
+(* forced refresh of a stale holder: the race oracle means "not both believe when they conflict", and the
+   modelled verdict needs the old lock file at both listings *)
+Lemma forced_oracle_spec f :
+  check_C12 (CForced f) = true <-> ~ (f_xok f = true /\ f_yok f = true /\ orb (f_exclx f) (f_excly f) = true).
+Proof.
+  destruct f as [ex ey o1 sv o2 xok yok]; cbn. destruct xok, yok, ex, ey; cbn; split; intros H;
+    try reflexivity; try discriminate; try (intros [_ [_ X]]; discriminate); try (intros [X _]; discriminate);
+    try (intros [_ [X _]]; discriminate); exfalso; apply H; auto.
+Qed.
+
+Lemma forced_ok_spec old1 saveok old2 : forced_ok old1 saveok old2 = true <-> old1 = true /\ saveok = true /\ old2 = true.
+Proof. unfold forced_ok. rewrite !andb_true_iff. tauto. Qed.
